@@ -136,7 +136,13 @@ def expressible(doc) -> bool:
                 return False
             special = r["operand"] == "@child.run.status" or (n.get("actions") and n["actions"][0]["type"] in ("call_webhook", "transfer_airtime"))
             if not special:
-                if any(k["category_uuid"] in (d, t) for k in r["cases"]):
+                if any(k["category_uuid"] == t for k in r["cases"]):
+                    return False
+                # a rule filed under the default category is expressible (the default exit is then written as
+                # that rule's edge, named like the category) when it is the only such rule, the last test, and
+                # the default exit leads somewhere
+                filed = [i for i, k in enumerate(r["cases"]) if k["category_uuid"] == d]
+                if filed and (filed != [len(r["cases"]) - 1] or not ex.get(cats[d]["exit_uuid"])):
                     return False
                 if any(not ex.get(c["exit_uuid"]) for c in other):
                     return False
